@@ -26,8 +26,10 @@ def run(tier):
         for where in (0, 1):
             jobs.append(dict(base, harness="VerifC15BuiltinNames", params={"name": name, "where": where}))
     for bits in range(16):
+        jobs.append(dict(base, harness="VerifC15FillIn", params={"ver": bits & 1, "scope": (bits >> 1) & 1, "excl": (bits >> 2) & 1, "where": (bits >> 3) & 1}))
+    for bits in range(16):
         jobs.append(dict(base, harness="VerifC15ImportOrder", params={"own": bits & 1, "a": (bits >> 1) & 1, "n": (bits >> 2) & 1, "b": (bits >> 3) & 1}))
     return run_property("C15", tier, [Group("maven", jobs)],
-                        required_covers=["fully resolved", "left unresolved", "resolved", "unresolved", "same key in child and parent", "explicit property named like a prefixed built-in", "nested import against a later import"],
-                        assumptions=["only the termination / placeholder clause and precedence lemmas are decided (property tables: child over parent, explicit over un-prefixed built-ins, prefixed built-ins over explicit; dependencyManagement imports depth-first in declaration order, first declaration wins); equality with Maven's own model builder is outside this technique"],
+                        required_covers=["fully resolved", "left unresolved", "resolved", "unresolved", "same key in child and parent", "explicit property named like a prefixed built-in", "nested import against a later import", "a fully specified dependency still takes managed exclusions"],
+                        assumptions=["only the termination / placeholder clause and precedence lemmas are decided (property tables: child over parent, explicit over un-prefixed built-ins, prefixed built-ins over explicit; dependencyManagement imports depth-first in declaration order, first declaration wins; management fills in exactly the empty ones of version, scope and exclusions); equality with Maven's own model builder is outside this technique"],
                         bounds={"keys": 3, "segments": 2 if q else 3, "arbitrary_subject_len": 5 if q else 7})
